@@ -42,14 +42,27 @@ Record plumb := mk_plumb {
   o_pprep : bool;   (* the INSERT went through a prepared statement (driver stmt_exec) *)
   o_psurv : nat;    (* rows of the INSERT present after the rollback *)
   o_perr : nat;     (* errors reported by any call *)
-  o_preuse : nat    (* errors of later uses of the same text: non-prepared, from a fresh prepared-mode
+  o_preuse : nat;   (* errors of later uses of the same text: non-prepared, from a fresh prepared-mode
                        session, and inside a prepared-mode transaction (all must work alike) *)
+  (* the same program in NON-prepared mode (plain base handle, every Session{PrepareStmt} replaced
+     by Session{}): the reference of "same rows as in non-prepared mode" *)
+  o_rtx : bool; o_rsurv : nat; o_rerr : nat;
+  (* the program uses forms outside the small model above (commit, Begin with options, failing
+     Begin, nested Begin / Transaction blocks with their save points, SavePoint/RollbackTo, a
+     Connection block inside a transaction): judged against the reference only *)
+  p_exotic : bool
 }.
+
+(* prepared mode is transparent: same connection class, same rows left, as many failing calls *)
+Definition same_as_reference (p : plumb) : bool :=
+  Bool.eqb (o_ptx p) (o_rtx p) && (o_psurv p =? o_rsurv p) && (o_perr p =? o_rerr p) && (o_preuse p =? 0).
 
 Definition plumb_model_agrees (p : plumb) : bool :=
   let k := pfinal (p_base p) (p_steps p) in
-  Bool.eqb (o_ptx p) (in_tx k) && Bool.eqb (o_pprep p) (prepared k)
-  && (o_psurv p =? (if in_tx k then 0 else 1)) && (o_perr p =? 0) && (o_preuse p =? 0).
+  same_as_reference p &&
+  (p_exotic p ||
+   (Bool.eqb (o_ptx p) (in_tx k) && Bool.eqb (o_pprep p) (prepared k)
+    && (o_psurv p =? (if in_tx k then 0 else 1)) && (o_perr p =? 0) && (o_preuse p =? 0))).
 
 (* the property: prepared-statement mode is transparent for transactions (a statement issued
    inside Begin/Transaction runs in that transaction whatever sessions were derived, and is undone
@@ -69,8 +82,10 @@ Fixpoint valid_steps (intx : bool) (steps : list pstep) : bool :=
 
 Definition plumb_spec (p : plumb) : bool :=
   let tx := existsb is_begin (p_steps p) in
-  (o_perr p =? 0) && (o_preuse p =? 0) && Bool.eqb (o_ptx p) tx && (o_psurv p =? (if tx then 0 else 1))
-  && Bool.eqb (o_pprep p) (spec_prepared (p_base p) (p_steps p)).
+  same_as_reference p &&
+  (p_exotic p ||
+   ((o_perr p =? 0) && (o_preuse p =? 0) && Bool.eqb (o_ptx p) tx && (o_psurv p =? (if tx then 0 else 1))
+    && Bool.eqb (o_pprep p) (spec_prepared (p_base p) (p_steps p)))).
 
 Lemma in_tx_fold steps : forall k, in_tx (fold_left papply steps k) = in_tx k || existsb is_begin steps.
 Proof.
@@ -115,6 +130,8 @@ Proof.
   rewrite session_stays_in_transaction. unfold pfinal at 1.
   rewrite prepared_spec_fold by (destruct (p_base p); exact Hv).
   replace (prepared (if p_base p then KPrepDB else KPlain)) with (p_base p) by (destruct (p_base p); reflexivity).
-  intro H. repeat (apply andb_prop in H; let H2 := fresh "G" in destruct H as [H H2]).
+  intro H. apply andb_prop in H. destruct H as [Hr H]. rewrite Hr. cbn [andb].
+  destruct (p_exotic p); [reflexivity|]. cbn [orb] in *.
+  repeat (apply andb_prop in H; let H2 := fresh "G" in destruct H as [H H2]).
   repeat (apply andb_true_intro; split); assumption.
 Qed.
